@@ -23,6 +23,7 @@ GNext ==
   \/ \E m \in 1 .. K : PeerRead(m) /\ H([o |-> "pread", n |-> m])
   \/ \E m \in 1 .. KI : PeerWrite(m) /\ H([o |-> "pwrite", n |-> m])
   \/ PeerClose /\ H([o |-> "pshut"])
+  \/ PeerAbort /\ H([o |-> "pabort"])
   \/ WritableCb /\ hist' = Append(hist, Pass(IF cb' # 0 THEN "complete" ELSE "none"))
   \/ CompleteExit /\ UNCHANGED hist
   \/ RunNextDelete /\ hist' = Append(hist, Pass("none"))
